@@ -224,7 +224,8 @@ def run_trivia_matrix(ctx: Ctx, modes, idx):
             continue
         text = gprint.grammar_text(rules)
         if ctx.tier == "quick":
-            calls = [c for c in calls if c[0] not in ("r5", "r6", "r8")]
+            # C04 runs the full matrix in both optimized modes against the reference; here (quick) a thinner copy
+            calls = [c for c in calls if c[0] not in ("r5", "r6", "r8")][::2]
         base = run_config(modes, "raw", {"text": text, "calls": calls, "gen": False})
         if base is None:
             ctx.count("wall_clock_timeout_inconclusive")
@@ -233,8 +234,8 @@ def run_trivia_matrix(ctx: Ctx, modes, idx):
             ctx.count("frontend_rejected")
             continue
         ctx.count("trivia_matrix_grammars")
-        # the trivia fusion happens in every Optimizer; quick: default pipeline, skip alone, inline-silent alone
-        for cfg in ["opt"] + [(i,) for i in ((1, 4) if ctx.tier == "quick" else range(5))]:
+        # the trivia fusion happens in every Optimizer; quick: default pipeline and skip alone
+        for cfg in ["opt"] + [(i,) for i in ((1,) if ctx.tier == "quick" else range(5))]:
             res = run_config(modes, cfg, {"text": text, "calls": calls, "gen": True})
             if res is None:
                 ctx.count("wall_clock_timeout_inconclusive")
